@@ -356,6 +356,7 @@ def process_candidates(prop, engine, sim, cands, outdir, seed, tier, max_new=4,
     violations = []
     known_hits = {}
     race_confirmed = False
+    deferred = []
     # Data races first: they explain nondeterminism of anything that follows.
     order = sorted(groups.items(),
                    key=lambda kv: (0 if kv[0][0] == 'data_race' else 1, str(kv[0])))
@@ -405,11 +406,18 @@ def process_candidates(prop, engine, sim, cands, outdir, seed, tier, max_new=4,
                                         'not reproducible in a fresh process'))
             continue
         if not (ok1 and ok2 and hash_ok):
-            raise MachineryFault(
-                'NONDETERMINISTIC: candidate %s/%s did not reproduce identically '
-                '(run1 %s hash %s, run2 %s hash %s); plan %s' %
-                (cls, sig, ok1, r1.get('hash'), ok2, r2.get('hash'),
-                 json.dumps(plan)[:2000]))
+            # Not reportable: a violation is only reported with a replay file
+            # that reproduces it. Whether this is a fault of the machinery is
+            # decided after the other signatures were gated: a symptom that
+            # hangs on the process history (heap corruption detected late, an
+            # abort inside free()) next to a gated violation of the same run is
+            # listed as a note; with nothing gated it is a machinery fault.
+            deferred.append((cls, sig,
+                             'NONDETERMINISTIC: candidate %s/%s did not reproduce identically '
+                             '(run1 %s hash %s, run2 %s hash %s); plan %s' %
+                             (cls, sig, ok1, r1.get('hash'), ok2, r2.get('hash'),
+                              json.dumps(plan)[:2000])))
+            continue
         small, used = minimise(sim, engine, plan, prop, cls, sig, outdir,
                                entry_name=c.get('entry'))
         # Final execution of the minimised plan, to freeze its bytes.
@@ -452,6 +460,14 @@ def process_candidates(prop, engine, sim, cands, outdir, seed, tier, max_new=4,
         violations.append(dict(sig=sig, cls=cls, replay=path, count=len(cs)))
         if cls == 'data_race':
             race_confirmed = True
+    if deferred:
+        if not any(v.get('replay') for v in violations):
+            raise MachineryFault(deferred[0][2])
+        for cls, sig, msg in deferred:
+            violations.append(dict(sig=sig, cls=cls, replay=None, unreproducible=True,
+                                   note='seen in the batch, does not replay in a fresh '
+                                        'process (depends on the worker\'s history); '
+                                        'other signatures of this run are gated'))
     return violations, known_hits
 
 
